@@ -77,6 +77,11 @@ type FuncSpec struct {
 	// Identity: the body returns its arguments unchanged (same tokens) instead
 	// of minting fresh outputs; In and Out must have the same types/forms.
 	Identity bool `json:"identity,omitempty"`
+	// ConcreteErr: the Go function has one more, final result of the concrete
+	// type *CErr (which implements error). By C17 that is an ordinary
+	// type-only output, not "the" error; the body returns a nil *CErr.
+	// Mutually exclusive with HasErr and Built.
+	ConcreteErr bool `json:"concreteErr,omitempty"`
 }
 
 func (f *FuncSpec) String() string {
